@@ -82,19 +82,30 @@ harness! {
         cover!(n == 8);
     }
 }
-// totality on shorter strings (complete for every string of <= 5 bytes)
+// totality: every UTF-8 string of <= 6 bytes (validity decided by the byte automaton of textutil.rs)
 harness! {
     #[kani::unwind(8)]
-    fn c12_san_from_str_total_len5() {
-        let mut b = [0u8; 5];
-        for i in 0..5 { b[i] = vk::any_u8(); }
-        let len = vk::any_u8() as usize; vk::assume(len <= 5);
-        if let Ok(s) = core::str::from_utf8(&b[..len]) {
+    fn c12_san_from_str_total_len6() {
+        let mut b = [0u8; 6];
+        for i in 0..6 { b[i] = vk::any_u8(); }
+        let len = vk::any_u8() as usize; vk::assume(len <= 6);
+        if crate::verif_textutil::valid_utf8(&b, len) {
+            let s = crate::verif_textutil::as_str(&b, len);
             let r = Move::from_str(s);
             if let Ok(Move { data: Data::Simple { piece, .. }, .. }) = r { assert!(piece != Piece::Pawn); }
             cover!(r.is_ok());
-            cover!(r.is_err() && len == 5);
+            cover!(r.is_err() && len == 6);
             cover!(len >= 3 && b[1] >= 0x80);
         }
+    }
+}
+harness! {
+    #[kani::unwind(8)]
+    fn c12_utf8_predicate_agrees_with_std() {
+        let mut b = [0u8; 5];
+        for i in 0..5 { b[i] = vk::any_u8(); }
+        let len = vk::any_u8() as usize; vk::assume(len <= 5);
+        assert!(crate::verif_textutil::valid_utf8(&b, len) == core::str::from_utf8(&b[..len]).is_ok());
+        cover!(len == 5 && b[0] >= 0xF0 && crate::verif_textutil::valid_utf8(&b, len));
     }
 }
